@@ -23,7 +23,6 @@ import (
 	"math/big"
 	"math/rand"
 	"path/filepath"
-	"sort"
 	"strings"
 
 	ethtypes "github.com/ethereum/go-ethereum/core/types"
@@ -45,8 +44,9 @@ func init() {
 }
 
 type replayIn struct {
-	Extra int  `json:"extra"` // extra blocks on the chain
-	Step  step `json:"step"`
+	Extra   int  `json:"extra"` // extra blocks on the chain
+	Step    step `json:"step"`
+	Between int  `json:"between,omitempty"` // 0: plain pre-execution; 1/2: between ExecuteBlock and SubmitBlock (1 block / 2 competing blocks)
 }
 
 type run struct {
@@ -79,8 +79,14 @@ func Run(x *hx.Ctx) {
 	if x.ReplayInput(&in) {
 		r := newRun(x, 0, in.Extra, &pend)
 		if r != nil {
-			r.doStep(in.Step)
-			r.c.k.Close()
+			if in.Between > 0 {
+				if twinDir, ok := r.makeTwin(); ok {
+					r.twoPhase(twinDir, &in)
+				}
+			} else {
+				r.doStep(in.Step)
+				r.c.k.Close()
+			}
 		}
 		flush(x, pend)
 		return
@@ -90,8 +96,14 @@ func Run(x *hx.Ctx) {
 		var ci replayIn
 		if json.Unmarshal(raw, &ci) == nil {
 			if r := newRun(x, idx, ci.Extra, &pend); r != nil {
-				r.doStep(ci.Step)
-				r.c.k.Close()
+				if ci.Between > 0 {
+					if twinDir, ok := r.makeTwin(); ok {
+						r.twoPhase(twinDir, &ci)
+					}
+				} else {
+					r.doStep(ci.Step)
+					r.c.k.Close()
+				}
 			}
 			idx++
 		}
@@ -517,11 +529,9 @@ func (r *run) sessions(n int) {
 	}
 }
 
-// everything: the whole scenario on one chain.
-func (r *run) everything() {
-	x := r.x
-	c := r.c
-	// twin: a copy of the data directory taken before any pre-execution
+// makeTwin copies the data directory (closed for the copy) before any pre-execution.
+func (r *run) makeTwin() (string, bool) {
+	x, c := r.x, r.c
 	twinDir := filepath.Join(x.OutDir, fmt.Sprintf("twin%d", r.idx))
 	c.k.Close()
 	if err := ledgerkit.CopyDir(c.k.Dir, twinDir); err != nil {
@@ -529,6 +539,17 @@ func (r *run) everything() {
 	}
 	if err := c.k.Open(); err != nil {
 		x.Fail("harness:reopen", "setup", nil, err.Error(), "reopen")
+		return "", false
+	}
+	return twinDir, true
+}
+
+// everything: the whole scenario on one chain.
+func (r *run) everything() {
+	x := r.x
+	c := r.c
+	twinDir, ok := r.makeTwin()
+	if !ok {
 		return
 	}
 	gas0 := gasDigest()
@@ -573,39 +594,9 @@ func (r *run) everything() {
 	if g := gasDigest(); g != gas0 {
 		x.Fail("preexec-changed:global:gas-table", "the gas table after all pre-executions is the one before", map[string]int{"chain": r.idx}, g, gas0)
 	}
-	// add the probe block here and on the twin: same ledger
-	errMain := c.k.AddMadeBlock(r.probe)
-	mainSnap := c.takeSnap(nil)
-	c.k.Close()
-	twin, err := c.k.OpenAt(twinDir)
-	if err != nil {
-		x.Note("twin open failed: " + err.Error())
-		return
-	}
-	errTwin := twin.AddMadeBlock(r.probe)
-	tc := *c
-	tc.k = twin
-	twinSnap := tc.takeSnap(nil)
-	twin.Close()
-	if (errMain == nil) != (errTwin == nil) {
-		x.Fail("preexec-changed:next-block-acceptance", "the next block is accepted exactly as on a ledger that never pre-executed",
-			map[string]int{"chain": r.idx}, fmt.Sprint(errMain), fmt.Sprint(errTwin))
-	}
-	if errTwin != nil {
-		x.Note("probe block rejected on the twin: " + errTwin.Error())
-	}
-	delete(mainSnap, "file:wal-sizes") // the main ledger was reopened once more than the twin: its logs rotated differently
-	delete(twinSnap, "file:wal-sizes")
-	var d []string
-	for _, k := range mainSnap.diff(twinSnap) {
-		d = append(d, k)
-	}
-	sort.Strings(d)
-	for _, comp := range d {
-		x.Fail("preexec-changed:twin:"+comp, "after the next block the ledger equals a twin that never saw a pre-execution",
-			map[string]int{"chain": r.idx}, mainSnap[comp], twinSnap[comp])
-	}
-	x.Count("chain:twin-compared")
+	// two-phase consensus sequence with pre-executions between ExecuteBlock and SubmitBlock,
+	// against the twin that never pre-executed (between.go)
+	r.twoPhase(twinDir, nil)
 }
 
 func max0(n int) int {
